@@ -1,4 +1,5 @@
 import SmVerif.Generated.RsPrefix
+import SmVerif.Generated.RsSourceMap
 import SmVerif.Model.SourceMap
 /-
 Tie: `SourceMap::prefix_source` (types.rs) as generated = the model's `SMap.prefixSource`
